@@ -82,21 +82,31 @@ std::vector<F> float_sources(int de, int digits)
     return v;
 }
 
-enum How { VIA_CONVERT, VIA_CTOR };
+enum How { VIA_CONVERT, VIA_CTOR, VIA_SN };
 
 // Dest is the plain destination type (int or scaled_integer<Rep,power<E>>); with VIA_CTOR the value is
 // constructed as scaled_integer<rounding_integer<Rep,Tag>,...> / rounding_integer<Dest,Tag> instead.
-template<class Src, class Dest, class Tag, How how>
-[[gnu::noinline]] void prog(int fullbits, int step)
+// VIA_SN: the destination is cnl::static_number<SND, exponent of Dest, Tag> (Dest only carries the exponent); the source may
+// be floating, a plain scaled_integer or another static_number (whose own rounding tag must not matter).
+template<class Src, class Dest, class Tag, How how, int SND = 0>
+[[gnu::noinline]] void prog(int fullbits, int step, const char* srcname = nullptr)
 {
     using SS = cv::scale_of<Src>;
     using SD = cv::scale_of<Dest>;
     constexpr int mode = tag_info<Tag>::mode;
     constexpr int de = SD::exponent;
     using RepD = typename SD::rep;
-    std::string name = std::string(how == VIA_CTOR ? "ctor<" : "convert<") + tag_info<Tag>::name + "," + tname<Dest>() + "<-" + tname<Src>() + ">";
+    std::string name = how == VIA_SN ? std::string("sn<") + tag_info<Tag>::name + ",static_number<" + std::to_string(SND) + "," + std::to_string(de) + "><-" + (srcname ? std::string(srcname) : tname<Src>()) + ">"
+                                     : std::string(how == VIA_CTOR ? "ctor<" : "convert<") + tag_info<Tag>::name + "," + tname<Dest>() + "<-" + tname<Src>() + ">";
+    auto fits_dest = [](Big const& v) {
+        if constexpr (how == VIA_SN) return v.abs() < Big::pow2(SND);
+        else return cv::fits<RepD>(v);
+    };
     auto invoke = [](Src const& s) -> Big {
-        if constexpr (how == VIA_CONVERT) {
+        if constexpr (how == VIA_SN) {
+            cnl::static_number<SND, de, Tag> d(s);
+            return cv::int_value(cnl::_impl::to_rep(d));
+        } else if constexpr (how == VIA_CONVERT) {
             return cv::int_value(cnl::_impl::to_rep(cnl::convert<Tag, Dest>{}(s)));
         } else if constexpr (SD::scaled) {
             using RD = scaled_integer<cnl::rounding_integer<RepD, Tag>, power<SD::exponent, SD::radix>>;
@@ -110,7 +120,7 @@ template<class Src, class Dest, class Tag, How how>
     Rat const unit = Rat::scaled(Big(1), 2, de);
     if constexpr (is_fp<Src>) {
         if (!vf::begin(name, false)) return;
-        int digits = cv::max_of<RepD>().bit_length();
+        int digits = how == VIA_SN ? SND : cv::max_of<RepD>().bit_length();
         for (Src x : float_sources<Src>(de, digits)) {
             if (!vf::my_row()) continue;
             auto id = [&] { return vf::to_s(x); };
@@ -121,9 +131,17 @@ template<class Src, class Dest, class Tag, How how>
             }
             Rat q = ref::to_rat(x) / unit;
             Big want = round_mode(q, mode);
-            if (!cv::fits<RepD>(want)) {
+            if (!fits_dest(want)) {
                 vf::skip_pre();
                 continue;
+            }
+            if constexpr (how == VIA_SN) {
+                // static_number carries an overflow layer that tests the source value itself: a source beyond the
+                // destination's extreme values whose *rounded* result is inside is not judged here (the band C06 leaves open)
+                if (q.abs() > Rat(Big::pow2(SND) - Big(1))) {
+                    vf::skip_pre();
+                    continue;
+                }
             }
             Big got;
             vf::Outcome o = vf::run([&] { got = invoke(x); });
@@ -182,7 +200,7 @@ template<class Src, class Dest, class Tag, How how>
             if (vf::replaying() && !vf::case_selected(id())) continue;
             Rat q = Rat::scaled(a, 2, se) / unit;
             Big want = round_mode(q, mode);
-            if (!cv::fits<RepD>(want)) {
+            if (!fits_dest(want)) {
                 vf::skip_pre();
                 continue;
             }
@@ -208,6 +226,11 @@ template<class Src, class Dest, class Tag, How how>
                 // scaling up to a finer destination overflows the promoted source rep
                 if (de < se && se - de < 100 && !cv::fits<Prom>(a * Big::pow2(se - de))) labels += "/scaling_overflows_source";
             }
+            if constexpr (how == VIA_SN && !cv::is_builtin_int<RepS>) {
+                // elastic source of SD digits divided by 2^s is given SD - s digits; rounding can carry into one more
+                constexpr int SD = cnl::digits_v<RepS>;
+                if (de > se && de - se < SD && want.abs() >= Big::pow2(SD - (de - se))) labels += "/rounding_carries_past_source_digits_minus_shift";
+            }
             if (!o.ok()) {
                 vf::outcome(o.str());
                 vf::violation(path + o.str() + "/" + cls + "/" + sg + labels, id(), id() + ": " + o.str() + ", expected rep " + want.str());
@@ -229,6 +252,8 @@ using W100 = cnl::wide_integer<100>;
 using f32 = float;
 using f64 = double;
 using f80 = long double;
+template<int D, int E, class Tag>
+using SN = cnl::static_number<D, E, Tag>;
 using NAT = cnl::native_rounding_tag;
 using NEA = cnl::nearest_rounding_tag;
 using TIE = cnl::tie_to_pos_inf_rounding_tag;
